@@ -384,17 +384,26 @@ class StmtMixin:
                 itv = self.unwrap_opt(itv, s1, 'iter', s.lineno)
             if isinstance(itv, tuple) and len(itv) == 3 and isinstance(itv[0], str) and itv[0] == 'generator':
                 return self.exec_fused_generator(s, itv, s1)
+            item_fn = None
+            if isinstance(itv, tuple) and len(itv) == 3 and isinstance(itv[0], str) and itv[0] == 'mapiter':
+                # Executor.map(fn, iterable): results are delivered in the order of the inputs, an exception of a call
+                # is raised when its position is reached -> `for x in inputs: item = fn(x); body`
+                item_fn, itv = itv[1], itv[2]
             if isinstance(itv, Ref) and s1.obj(itv).kind == 'seglist':
                 return self.exec_for_segments(s, s1.obj(itv).meta['segments'], s1)
             if isinstance(itv, Ref) and s1.obj(itv).kind == 'smap':
                 itv = s1.alloc(HObj('smapitems', meta={'map': itv, 'what': 'keys'}))
             seq = self.concrete_iterable(itv, s1)
             spec = self.loop_spec(s)
-            if seq is not None and (spec is None or not spec.iterate_concrete_list_symbolically):
-                return self.unroll_for(s, seq, s1)
-            if spec is None:
-                raise EngineError(f'for loop over symbolic iterable without invariant at line {s.lineno}')
-            return self.exec_loop_with_invariant(s, s1, spec, kind='for', iterable=itv)
+            self._item_fn = item_fn
+            try:
+                if seq is not None and (spec is None or not spec.iterate_concrete_list_symbolically):
+                    return self.unroll_for(s, seq, s1)
+                if spec is None:
+                    raise EngineError(f'for loop over symbolic iterable without invariant at line {s.lineno}')
+                return self.exec_loop_with_invariant(s, s1, spec, kind='for', iterable=itv)
+            finally:
+                self._item_fn = None
         return self.lift(self.eval(s.iter, st), fin)
 
     def exec_for_segments(self, s, segments, st):
@@ -474,12 +483,13 @@ class StmtMixin:
         return None
 
     def unroll_for(self, s, seq, st):
+        item_fn, self._item_fn = self._item_fn, None
         results = []
         live = [st]
         for item in seq:
             nxt = []
             for s1 in live:
-                for o, s2 in self.assign(s.target, item, s1):
+                for o, s2 in self.assign_loop_item(s, item, s1, item_fn):
                     if o[0] != 'normal':
                         results.append((o, s2))
                         continue
@@ -498,6 +508,20 @@ class StmtMixin:
             else:
                 results.append((NORMAL, s1))
         return results
+
+    _item_fn = None
+
+    def assign_loop_item(self, s, item, st, item_fn):
+        """binds the loop target; for Executor.map loops the item is first passed through the mapped function"""
+        if item_fn is None:
+            return self.assign(s.target, item, st)
+        out = []
+        for r in self.call_value(item_fn, [item], {}, st, s.lineno):
+            if r.kind == 'ok':
+                out.extend(self.assign(s.target, r.val, r.st))
+            else:
+                out.append((raise_out(r.val), r.st))
+        return out
 
     def assigned_names(self, nodes):
         names = set()
@@ -565,11 +589,12 @@ class StmtMixin:
         havocked as well (fresh values of the same sort).  So an edit that makes the body touch more state can
         only make obligations harder, never unsound, and never fails by itself."""
         extra = {}
+        item_fn, self._item_fn = self._item_fn, None
         for attempt in range(4):
             mark = len(self.obligations)
             base = st.fork()
             self._frame_missing = {}
-            res = self._exec_loop_with_invariant(s, base, spec, kind, iterable, extra)
+            res = self._exec_loop_with_invariant(s, base, spec, kind, iterable, extra, item_fn)
             missing = {k: v for k, v in self._frame_missing.items() if k not in extra}
             if not missing:
                 return res
@@ -604,7 +629,7 @@ class StmtMixin:
             else:
                 raise EngineError('loop body modifies a concrete container that the loop contract does not havoc')
 
-    def _exec_loop_with_invariant(self, s, st, spec, kind, iterable=None, extra_havoc=None):
+    def _exec_loop_with_invariant(self, s, st, spec, kind, iterable=None, extra_havoc=None, item_fn=None):
         """Standard loop rule.  spec: LoopSpec(inv(ctx)->dict name->Bool, havoc(ctx) -> None,
         modifies_locals, item(ctx, index)...).  Generates: init, preservation (per body path),
         and continues after the loop with the invariant and the negated guard."""
@@ -664,7 +689,7 @@ class StmtMixin:
                 cur_item = None
                 if kind == 'for':
                     cur_item = ctx.current_item(s1)
-                    body_in = self.assign(s.target, cur_item, s1)
+                    body_in = self.assign_loop_item(s, cur_item, s1, item_fn)
                 for o0, s2 in body_in:
                     if o0[0] != 'normal':
                         results.append((o0, s2))
